@@ -10,12 +10,16 @@ From Coq Require Import List Arith Bool.
 From Crux Require Import Rt.Lang Rt.Rt.
 Import ListNotations.
 
+(* one request inside a join! / select!: waiting on rid | answered | its request was dropped *)
+Inductive rslot := SWait (rid : nat) | SVal (v : nat) | SGone.
 Inductive rleaf :=
 | RRun (t : task)
 | RReq (rid x : nat) (k : task)
 | RStr                                   (* waiting for the next item of the innermost loop *)
 | RJoin (uid : nat) (k : task)
-| RDead.                                 (* its one-shot request was dropped: removed at the next step *)
+| RDead                                  (* its one-shot request was dropped: removed at the next step *)
+| RBoth (a b : rslot) (x1 x2 : nat) (k : task)     (* join! of two requests *)
+| RRace (a b : rslot) (x : nat) (k : task).        (* select_biased! of two requests *)
 Record rframe := mkRF { rf_rid : nat; rf_x : nat; rf_body : task; rf_k : task; rf_buf : list nat; rf_closed : bool }.
 Record rstrand := mkRS { s_uid : nat; s_env : env; s_leaf : rleaf; s_stack : list rframe }.
 Record rbag := mkRB { b_strands : list rstrand; b_next : nat; b_fin : list nat }.
@@ -60,6 +64,12 @@ Fixpoint run_strand (fuel : nat) (s : rstrand) (nu n : nat) (acc : list rstrand)
     | TSpawn child h k =>
         run_strand f (mkRS u (setv h nu en) (RRun k) st) (S nu) n (acc ++ [mkRS nu en (RRun child) []]) o
     | TJoin h k => Some (Some (mkRS u en (RJoin (getd 0 h en) k) st), acc, nu, n, o)
+    | TBoth tg1 e1 x1 tg2 e2 x2 k =>
+        Some (Some (mkRS u en (RBoth (SWait n) (SWait (S n)) x1 x2 k) st), acc, nu, S (S n),
+              ro_app o (mkRO [mkRE tg1 (eval en e1) [] n 1; mkRE tg2 (eval en e2) [] (S n) 1] []))
+    | TRace tg1 e1 tg2 e2 x k =>
+        Some (Some (mkRS u en (RRace (SWait n) (SWait (S n)) x k) st), acc, nu, S (S n),
+              ro_app o (mkRO [mkRE tg1 (eval en e1) [] n 1; mkRE tg2 (eval en e2) [] (S n) 1] []))
     | TAbortT _ k => run_strand f (mkRS u en (RRun k) st) nu n acc o      (* outside the fragment *)
     | TYield _ k => run_strand f (mkRS u en (RRun k) st) nu n acc o
     | THost _ _ _ _ _ k => run_strand f (mkRS u en (RRun k) st) nu n acc o (* never in source programs *)
@@ -77,6 +87,19 @@ Fixpoint run_strand (fuel : nat) (s : rstrand) (nu n : nat) (acc : list rstrand)
     end
   | RReq _ _ _ | RJoin _ _ => Some (Some s, acc, nu, n, o)
   | RDead => Some (None, acc, nu, n, o)
+  | RBoth a b x1 x2 k =>
+      match a, b with
+      | SVal m1, SVal m2 => run_strand f (mkRS u (setv x2 m2 (setv x1 m1 en)) (RRun k) st) nu n acc o
+      | SWait _, _ | _, SWait _ => Some (Some s, acc, nu, n, o)
+      | _, _ => Some (None, acc, nu, n, o)          (* a dropped half: the join can never complete *)
+      end
+  | RRace a b x k =>
+      match a, b with
+      | SVal m, _ => run_strand f (mkRS u (setv x m en) (RRun k) st) nu n acc o
+      | _, SVal m => run_strand f (mkRS u (setv x m en) (RRun k) st) nu n acc o
+      | SGone, SGone => Some (None, acc, nu, n, o)
+      | _, _ => Some (Some s, acc, nu, n, o)
+      end
   end end.
 
 Definition can_move (b : rbag) (s : rstrand) : bool :=
@@ -86,6 +109,8 @@ Definition can_move (b : rbag) (s : rstrand) : bool :=
   | RJoin uid _ => memn uid (b_fin b) || negb (existsb (fun r => Nat.eqb (s_uid r) uid) (b_strands b))
   | RReq _ _ _ => false
   | RDead => true
+  | RBoth a b _ _ _ => match a, b with SWait _, _ | _, SWait _ => false | _, _ => true end
+  | RRace a b _ _ => match a, b with SVal _, _ | _, SVal _ => true | SGone, SGone => true | _, _ => false end
   end.
 Definition unblock (s : rstrand) : rstrand :=
   match s_leaf s with RJoin _ k => mkRS (s_uid s) (s_env s) (RRun k) (s_stack s) | _ => s end.
@@ -168,8 +193,24 @@ Fixpoint run (fuel : nat) (en : env) (c : rc) (n : nat) : option (rc * nat * rou
 (* ---------- the shell's inputs ---------- *)
 (* deliver a value to the strand waiting on request rid (one-shot), or buffer it at the loop fed by
    stream rid.  Returns whether some strand took it. *)
+Definition fill_slot (rid v : nat) (q : rslot) : bool * rslot :=
+  match q with SWait r => if Nat.eqb r rid then (true, SVal v) else (false, q) | _ => (false, q) end.
+Definition gone_slot (rid : nat) (q : rslot) : rslot :=
+  match q with SWait r => if Nat.eqb r rid then SGone else q | _ => q end.
 Definition deliver_strand (rid v : nat) (s : rstrand) : bool * rstrand :=
   match s_leaf s with
+  | RBoth a b x1 x2 k =>
+      let (ta, a') := fill_slot rid v a in let (tb, b') := fill_slot rid v b in
+      if ta || tb then (true, mkRS (s_uid s) (s_env s) (RBoth a' b' x1 x2 k) (s_stack s)) else
+      (existsb (fun fr => Nat.eqb (rf_rid fr) rid) (s_stack s),
+       mkRS (s_uid s) (s_env s) (s_leaf s)
+            (map (fun fr => if Nat.eqb (rf_rid fr) rid then mkRF (rf_rid fr) (rf_x fr) (rf_body fr) (rf_k fr) (rf_buf fr ++ [v]) (rf_closed fr) else fr) (s_stack s)))
+  | RRace a b x k =>
+      let (ta, a') := fill_slot rid v a in let (tb, b') := fill_slot rid v b in
+      if ta || tb then (true, mkRS (s_uid s) (s_env s) (RRace a' b' x k) (s_stack s)) else
+      (existsb (fun fr => Nat.eqb (rf_rid fr) rid) (s_stack s),
+       mkRS (s_uid s) (s_env s) (s_leaf s)
+            (map (fun fr => if Nat.eqb (rf_rid fr) rid then mkRF (rf_rid fr) (rf_x fr) (rf_body fr) (rf_k fr) (rf_buf fr ++ [v]) (rf_closed fr) else fr) (s_stack s)))
   | RReq r x k => if Nat.eqb r rid then (true, mkRS (s_uid s) (setv x v (s_env s)) (RRun k) (s_stack s)) else
       (existsb (fun fr => Nat.eqb (rf_rid fr) rid) (s_stack s),
        mkRS (s_uid s) (s_env s) (s_leaf s)
@@ -200,7 +241,12 @@ Definition close_frames (rid : nat) (s : rstrand) : rstrand :=
   mkRS (s_uid s) (s_env s) (s_leaf s)
        (map (fun fr => if Nat.eqb (rf_rid fr) rid then mkRF (rf_rid fr) (rf_x fr) (rf_body fr) (rf_k fr) (rf_buf fr) true else fr) (s_stack s)).
 Definition kill_waiter (rid : nat) (s : rstrand) : rstrand :=
-  if waits_once rid s then mkRS (s_uid s) (s_env s) RDead (s_stack s) else close_frames rid s.
+  if waits_once rid s then mkRS (s_uid s) (s_env s) RDead (s_stack s) else
+  match s_leaf s with
+  | RBoth a b x1 x2 k => close_frames rid (mkRS (s_uid s) (s_env s) (RBoth (gone_slot rid a) (gone_slot rid b) x1 x2 k) (s_stack s))
+  | RRace a b x k => close_frames rid (mkRS (s_uid s) (s_env s) (RRace (gone_slot rid a) (gone_slot rid b) x k) (s_stack s))
+  | _ => close_frames rid s
+  end.
 Fixpoint dropreq (rid : nat) (c : rc) : rc :=
   match c with
   | RBag b => RBag (mkRB (map (kill_waiter rid) (b_strands b)) (b_next b) (b_fin b))
@@ -289,6 +335,7 @@ Fixpoint task_abort_free (t : task) : bool :=
   match t with
   | TRet => true
   | TEmit _ _ k | TNotify _ _ k | TReq _ _ _ k | TJoin _ k | TYield _ k => task_abort_free k
+  | TBoth _ _ _ _ _ _ k | TRace _ _ _ _ _ k => task_abort_free k
   | TForEach _ _ _ b k => task_abort_free b && task_abort_free k
   | TSpawn c _ k => task_abort_free c && task_abort_free k
   | TAbortT _ _ => false
